@@ -10,7 +10,7 @@ Definition VN : val := VNull.
 Definition VS (h : string) : val := VStr (hex h).
 Definition Rw (id : option val) (v s : val) : option val * val * val := (id, v, s).
 Definition Tb (k : Z) (v s : val) : Z * val * val := (k, v, s).
-Definition Cf (autoinc notnull : bool) (maxlen : N) (check : bool) : cfg := mkCfg autoinc notnull maxlen check.
+Definition Cf (autoinc notnull : bool) (maxlen : N) (check ucomp : bool) : cfg := mkCfg autoinc notnull maxlen check ucomp.
 
 Inductive obs :=
 | OSame (ok : bool)                              (* table equal to the previously observed one *)
